@@ -47,6 +47,8 @@ impl Scheme {
             .join("/")
     }
     fn abs(&self, s: &str) -> Value {
+        // a path reported with one trailing separator is the same path
+        let s = if s.len() > 1 && s.ends_with('/') { &s[..s.len() - 1] } else { s };
         if s.is_empty() {
             return json!(["<unmappable>", s]);
         }
@@ -181,6 +183,18 @@ fn canon_cfg(ts: &[ATarget]) -> Value {
     json!({"targets": ts.iter().map(|t| json!({"path": t.path, "uses": t.uses, "ignores": t.ignores})).collect::<Vec<_>>()})
 }
 
+/// How a target's own path is written in the configuration of a variant: with a trailing separator for every other
+/// target of the variants that spell directories that way.
+fn declared_path(t: &ATarget, s: &Scheme, rev_lists: bool, slash_dirs: bool, fixture: &Path) -> String {
+    let tp = s.conc(&t.path);
+    let own_slash = slash_dirs && rev_lists && (t.path.len() + t.path[0].len()) % 2 == 0 && fixture.join(&tp).is_dir();
+    if own_slash {
+        format!("{}/", tp)
+    } else {
+        tp
+    }
+}
+
 fn concrete_cfg(ts: &[&ATarget], s: &Scheme, rev_lists: bool, omit_empty: bool, slash_dirs: bool, fixture: &Path) -> String {
     let mut out = vec![];
     // an entry that names a directory may be written with a trailing separator: same path, other spelling
@@ -194,7 +208,8 @@ fn concrete_cfg(ts: &[&ATarget], s: &Scheme, rev_lists: bool, omit_empty: bool, 
     };
     for t in ts {
         let mut o = serde_json::Map::new();
-        o.insert("path".into(), json!(s.conc(&t.path)));
+        // a target's own path may be written with a trailing separator too (every other target in that variant)
+        o.insert("path".into(), json!(declared_path(t, s, rev_lists, slash_dirs, fixture)));
         let mut uses: Vec<String> = t.uses.iter().map(&spell).collect();
         let mut ign: Vec<String> = t.ignores.iter().map(&spell).collect();
         if rev_lists {
@@ -495,7 +510,7 @@ fn drive_variant(
         }
         for sub in subsets {
             sink.evals += 1;
-            let vis: Vec<String> = sub.iter().map(|&i| s.conc(&order[i].path)).collect();
+            let vis: Vec<String> = sub.iter().map(|&i| declared_path(order[i], s, rev_lists, slash_dirs, fixture)).collect();
             let mut roots: Vec<APath> = sub.iter().map(|&i| order[i].path.clone()).collect();
             roots.sort();
             roots.dedup();
@@ -805,6 +820,22 @@ fn cmd_cfgrandom(args: &[String]) {
                 dirs.push(c);
             }
         }
+        // family "fan" (every fifth case): many sibling targets that all name the same `uses` directory and (most of
+        // them) the same `ignores` file inside it; family "many" (every seventh): 51..130 targets, so that whatever is
+        // done per batch of targets meets a last, partial batch
+        let fan = k % 5 == 3;
+        let many = k % 7 == 5;
+        let nfan = if fan { rng.gen_range(6..=14) } else { 0 };
+        let nmany = if many { rng.gen_range(51..=130) } else { 0 };
+        for i in 0..nfan {
+            dirs.push(vec![format!("fan{:02}", i)]);
+        }
+        if fan {
+            dirs.push(vec!["fanshared".to_string()]);
+        }
+        for i in 0..nmany {
+            dirs.push(vec![format!("m{:03}", i)]);
+        }
         let mut files: Vec<APath> = vec![];
         for d in &dirs {
             for fname in ["f.txt", "f", "a"] {
@@ -824,10 +855,10 @@ fn cmd_cfgrandom(args: &[String]) {
             std::fs::write(&fp, b"x").unwrap();
         }
         // targets: a random subset of directories (some nested), occasionally a file
-        let nt = rng.gen_range(2..=max_targets.min(dirs.len()));
-        let mut tdirs = dirs.clone();
+        let nt = rng.gen_range(2..=max_targets.min(dirs.len() - nfan - nmany - (if fan { 1 } else { 0 })).max(2));
+        let mut tdirs: Vec<APath> = dirs.iter().filter(|d| !(d[0].starts_with("fan") || (d[0].starts_with('m') && d[0].len() == 4 && d[0][1..].chars().all(|c| c.is_ascii_digit())))).cloned().collect();
         tdirs.shuffle(&mut rng);
-        tdirs.truncate(nt);
+        tdirs.truncate(nt.min(tdirs.len()));
         if rng.gen_bool(0.2) {
             let fp = files[rng.gen_range(0..files.len())].clone();
             if !tdirs.iter().any(|d| d == &fp) {
@@ -918,11 +949,47 @@ fn cmd_cfgrandom(args: &[String]) {
                 changes.push(p);
             }
         }
+        let mut want_k = Want { analyze: want.analyze, edges: want.edges, groups: want.groups };
+        if fan {
+            let shared = vec!["fanshared".to_string()];
+            let ign = vec!["fanshared".to_string(), "f.txt".to_string()];
+            for i in 0..nfan {
+                ts.push(ATarget {
+                    path: vec![format!("fan{:02}", i)],
+                    uses: vec![shared.clone()],
+                    ignores: if i % 5 == 4 { vec![] } else { vec![ign.clone()] },
+                });
+            }
+            changes.push(ign.clone());
+            if rng.gen_bool(0.5) {
+                changes.push(vec!["fanshared".to_string(), "other.rs".to_string()]);
+            }
+        }
+        if many {
+            // flat targets with `uses` pointing at lower-numbered ones; only small change sets, no layering oracle
+            for i in 0..nmany {
+                let mut uses = vec![];
+                if i > 0 && rng.gen_bool(0.5) {
+                    uses.push(vec![format!("m{:03}", rng.gen_range(0..i))]);
+                }
+                if i > 1 && rng.gen_bool(0.2) {
+                    uses.push(vec![format!("m{:03}", rng.gen_range(0..i)), "f.txt".to_string()]);
+                }
+                uses.sort();
+                uses.dedup();
+                ts.push(ATarget { path: vec![format!("m{:03}", i)], uses, ignores: vec![] });
+            }
+            changes.truncate(6);
+            changes.push(vec![format!("m{:03}", nmany - 1), "f.txt".to_string()]);
+            changes.push(vec!["m000".to_string(), "f.txt".to_string()]);
+            want_k.groups = false;
+        }
         changes.sort();
+        changes.dedup();
         let refs: Vec<&ATarget> = ts.iter().collect();
         let perms = permutations(&refs, 3, &mut rng);
         for (pi, order) in perms.iter().enumerate() {
-            drive_variant(&ts, order, &id, &fixture, &changes, pi % 2 == 1, pi % 2 == 0, &want,
+            drive_variant(&ts, order, &id, &fixture, &changes, pi % 2 == 1, pi % 2 == 0, &want_k,
                           &mut sink, &mut rng, &format!("identity#{}", pi));
         }
     }
